@@ -18,7 +18,7 @@ theorem get_setParent (h : Heap) (c : Cell) (p v : Nat) : (h.setParent p v).get 
 
 theorem removeHead_cell (h : Heap) (c : Cell) (par : Nat) (hc : CellAt c par)
     (hcell : c = .right par → h.left par ≠ h.get c) :
-    (if par ≠ 0 then (if h.get c = h.left par then Cell.left par else Cell.right par) else Cell.root) = c := by
+    (if par ≠ 0 then (if h.left par = h.get c then Cell.left par else Cell.right par) else Cell.root) = c := by
   cases c with
   | root => simp only [CellAt] at hc; simp [hc]
   | left p =>
@@ -31,8 +31,7 @@ theorem removeHead_cell (h : Heap) (c : Cell) (par : Nat) (hc : CellAt c par)
     obtain ⟨e1, e2⟩ := hc
     subst e1
     have := hcell rfl
-    have t2 : ¬ h.get (Cell.right p) = h.left p := fun x => this x.symm
-    simp [e2, t2]
+    simp [e2, this]
 
 /-- **the head of `remove(it)`** (Map.hpp:199-226): the cell computation, the three trivial cases and the choice of the
     neighbour.  Trivial cases: the item's cell receives its only child (or null), the child's parent link is
